@@ -33,6 +33,10 @@ class W(X(E), Y(E), Z(int, E)) {}
 
 class V(L(P), R(P), T(P, int), N) {}
 
+interface Cmp { method cmp(o: int): int }
+
+class K(val k: int) : Cmp { method cmp(o: int): int = this.k - o }
+
 class Opt<T>(Non, Som(T)) {
   method <R> map(f: (T) -> R): Opt<R> =
     match this {
@@ -385,6 +389,13 @@ class ScopeGen:
             funs.append('  function f%d(%s): int = %s' % (i, ', '.join('%s: int' % p for p in params), body))
             for _ in range(r.range(1, 2)):
                 prints.append('    Process.println(Str.fromInt(Main.f%d(%s)));' % (i, ', '.join(self.lit() for _ in params)))
+        # generic functions whose parameters of a bounded type-parameter type are method-call receivers
+        for i in range(r.range(1, 2)):
+            a, b, c, d = self.names(set(), 4)
+            body = r.pick(['%s.cmp(%s) + %s.cmp(%s.cmp(0))' % (a, c, b, a), '{ let %s = %s.cmp(%s); %s.cmp(%s) - %s }' % (d, b, c, a, d, c),
+                           'if %s.cmp(%s) > 0 { %s.cmp(1) } else { %s.cmp(%s) }' % (a, c, b, a, c)])
+            funs.append('  function <C: Cmp> g%d(%s: C, %s: C, %s: int): int = %s' % (i, a, b, c, body))
+            prints.append('    Process.println(Str.fromInt(Main.g%d(K.init(%s), K.init(%s), %s)));' % (i, self.lit(), self.lit(), self.lit()))
         # a class with methods: `this`, parameters named like fields of other classes
         ms = []
         for i in range(r.range(1, 2)):
